@@ -91,6 +91,23 @@ theorem step_all (P : Prog) : ∀ n,
             split at h
             · exact ihP _ _ _ _ h hn
             · exact h
+      | bin op ty l rhs =>
+        rw [eval] at h ⊢
+        cases hl : eval n P ρ w l with
+        | fail f w' => rw [hl] at h; rw [ihE _ _ _ _ hl (by grind)]; exact h
+        | ok a w' =>
+          rw [hl] at h; rw [ihE _ _ _ _ hl (by simp)]
+          simp only at h ⊢
+          split at h
+          · exact h
+          · exact h
+          · rename_i h1 h2
+            split
+            · rename_i hb; rw [if_pos hb] at h; exact h
+            · rename_i hb; rw [if_neg hb] at h
+              cases hr : eval n P ρ w' rhs with
+              | fail f w'' => rw [hr] at h; rw [ihE _ _ _ _ hr (by grind)]; exact h
+              | ok b w'' => rw [hr] at h; rw [ihE _ _ _ _ hr (by simp)]; exact h
       | _ => rw [eval] at h ⊢; grind
     · intro ρ w es r h hn
       cases es <;> (rw [evalList] at h ⊢; grind)
